@@ -25,38 +25,80 @@ Proof.
   apply lookup_remove_other, Hn.
 Qed.
 
-(** operations that do not dial, close or destroy under [id]: every timer may fire, everything
-    may happen under other IDs *)
-Definition harmless (id : Z) (o : rgop) : Prop :=
+Lemma handler_eqb_eq a b : handler_eqb a b = true <-> a = b.
+Proof.
+  destruct a, b; cbn; split; intros H; try discriminate; try (inversion H; subst; apply Z.eqb_refl);
+    apply Z.eqb_eq in H; subst; reflexivity.
+Qed.
+
+(** what doDial answers *)
+Theorem rgdial_result st k id :
+  (snd (rgdial st k id) = true -> route (fst (rgdial st k id)) id = Some (Live k)) /\
+  (snd (rgdial st k id) = false -> fst (rgdial st k id) = st /\ exists j, route st id = Some (Live j)).
+Proof.
+  unfold rgdial, route. destruct (lookup id (rgMap st)) as [[j|j]|] eqn:E; cbn [fst snd]; split; intros H;
+    try discriminate; try (cbn; apply lookup_set_same).
+  split; [reflexivity | exists j; reflexivity].
+Qed.
+
+(** the operations that may follow dial k under [id] without ending it: anything but connection
+    k's own close or destroy *)
+Definition not_own_end (k id : Z) (o : rgop) : Prop :=
   match o with
-  | RgExpire _ _ => True
-  | RgDial _ i | RgClose _ i | RgDestroy _ i => i <> id
+  | RgClose j i | RgDestroy j i => ~ (j = k /\ i = id)
+  | _ => True
   end.
 
-Lemma rgstep_keeps_live st o id k :
-  harmless id o -> route st id = Some (Live k) -> route (rgstep st o) id = Some (Live k).
+Lemma rgstep_keeps_owner st o id k :
+  enabled st o = true -> not_own_end k id o ->
+  route st id = Some (Live k) -> route (rgstep st o) id = Some (Live k).
 Proof.
-  unfold route. destruct o as [k' i|k' i|k' i|k' i]; cbn [rgstep rgMap harmless]; intros Hh Hl.
-  - rewrite lookup_set_other; assumption.
-  - rewrite lookup_set_other; assumption.
-  - rewrite lookup_remove_other; assumption.
+  unfold route. destruct o as [k' i|k' i|k' i|k' i]; cbn [rgstep enabled not_own_end]; intros He Hn Hl.
+  - (* another dial: refused under this ID, elsewhere harmless *)
+    unfold rgdial. destruct (Z.eq_dec i id) as [->|Hne].
+    + rewrite Hl. exact Hl.
+    + destruct (lookup i (rgMap st)) as [[j|j]|]; cbn [fst rgMap]; try exact Hl;
+        rewrite lookup_set_other; assumption.
+  - (* a close is enabled only for the connection that owns its ID *)
+    unfold route in He. destruct (Z.eq_dec i id) as [->|Hne].
+    + rewrite Hl in He. apply handler_eqb_eq in He. inversion He; subst. exfalso. apply Hn. split; reflexivity.
+    + cbn [rgMap]. rewrite lookup_set_other; assumption.
+  - unfold route in He. destruct (Z.eq_dec i id) as [->|Hne].
+    + rewrite Hl in He. apply handler_eqb_eq in He. inversion He; subst. exfalso. apply Hn. split; reflexivity.
+    + cbn [rgMap]. rewrite lookup_remove_other; assumption.
   - destruct (has_timer k' i (rgTimers st)); [|exact Hl]. cbn [rgMap].
-    destruct (Z.eq_dec i id) as [->|Hn].
+    destruct (Z.eq_dec i id) as [->|Hne].
     + rewrite Hl. cbn [handler_eqb]. exact Hl.
     + destruct (lookup i (rgMap st)) as [h|]; [|exact Hl].
       destruct (handler_eqb h (Tomb k')); [|exact Hl]. rewrite lookup_remove_other; assumption.
 Qed.
 
-(** C02_redial_registered *)
+(** C02_redial_registered: an accepted dial owns its ID until its own close *)
 Theorem redial_registered : forall ops st k id,
-  Forall (harmless id) ops ->
-  route (rgrun (rgstep st (RgDial k id)) ops) id = Some (Live k).
+  snd (rgdial st k id) = true ->
+  wf_run (fst (rgdial st k id)) ops = true ->
+  Forall (not_own_end k id) ops ->
+  route (rgrun (fst (rgdial st k id)) ops) id = Some (Live k).
 Proof.
-  intros ops st k id Hf.
-  assert (H0 : route (rgstep st (RgDial k id)) id = Some (Live k)) by (unfold route; cbn; apply lookup_set_same).
-  revert H0. generalize (rgstep st (RgDial k id)) as s.
-  induction Hf as [|o r Ho _ IH]; intros s Hs; cbn; [exact Hs|].
-  apply IH. apply rgstep_keeps_live; assumption.
+  intros ops st k id Hacc.
+  pose proof (proj1 (rgdial_result st k id) Hacc) as H0. revert H0.
+  generalize (fst (rgdial st k id)) as s.
+  induction ops as [|o r IH]; intros s Hs Hwf Hf; cbn in *; [exact Hs|].
+  apply andb_true_iff in Hwf as [He Hw]. inversion Hf as [|? ? Ho Hr]; subst.
+  apply IH; [|exact Hw | exact Hr]. apply rgstep_keeps_owner; assumption.
+Qed.
+
+(** what earlier dials left behind never makes a dial fail: only an OPEN connection does *)
+Theorem dial_accepted_unless_open st k id :
+  snd (rgdial st k id) = true <-> (forall j, route st id <> Some (Live j)).
+Proof.
+  unfold rgdial, route. destruct (lookup id (rgMap st)) as [[j|j]|]; cbn [snd]; split; intros H.
+  - discriminate.
+  - exfalso. apply (H j). reflexivity.
+  - intros j' Hc. discriminate.
+  - reflexivity.
+  - intros j' Hc. discriminate.
+  - reflexivity.
 Qed.
 
 (** a graceful close leaves a closed-connection entry that its own timer removes, unless a later
@@ -81,3 +123,89 @@ Example add_dial_refuted :
   route (rgstep (add_dial st 2 0) (RgExpire 1 0)) 0 = None /\
   route (rgstep st (RgDial 2 0)) 0 = Some (Live 2).
 Proof. vm_compute. repeat split; reflexivity. Qed.
+
+(** before fixes/C02-empty-scid-one-open-connection.patch: dial 2 overwrote the entry of the OPEN
+    connection 1 (which lost its packets at once), and the end of connection 1 then cut off
+    connection 2 as well; now dial 2 is refused and connection 1 keeps its entry *)
+Example overlap_refuted :
+  let st1 := rgstep (RG [] []) (RgDial 1 0) in
+  let st2 := overwrite_dial st1 2 0 in
+  route st2 0 = Some (Live 2) /\
+  route (rgstep st2 (RgDestroy 1 0)) 0 = None /\
+  route (rgstep st2 (RgClose 1 0)) 0 = Some (Tomb 1) /\
+  rgdial st1 2 0 = (st1, false) /\ route st1 0 = Some (Live 1).
+Proof. vm_compute. repeat split; reflexivity. Qed.
+
+(** non-vacuity of redial_registered: dial 1, close, dial 2 accepted over the closed entry, then
+    the timer of connection 1, another dial attempt (refused) -- all enabled, connection 2 stays *)
+Example redial_history_ok :
+  let st := rgrun (RG [] []) [RgDial 1 0; RgClose 1 0] in
+  let ops := [RgExpire 1 0; RgDial 3 0; RgDial 4 7; RgClose 4 7] in
+  snd (rgdial st 2 0) = true /\ wf_run (fst (rgdial st 2 0)) ops = true /\
+  Forall (not_own_end 2 0) ops /\ route (rgrun (fst (rgdial st 2 0)) ops) 0 = Some (Live 2).
+Proof.
+  vm_compute. repeat split; try reflexivity.
+  repeat constructor; intros [H1 H2]; discriminate.
+Qed.
+
+(** ** the closed-connection entry of connection k goes away when ITS timer fires, whatever
+    happens under other IDs and whichever other timers fire in between *)
+Definition elsewhere (id : Z) (o : rgop) : Prop :=
+  match o with
+  | RgExpire _ _ => True
+  | RgDial _ i | RgClose _ i | RgDestroy _ i => i <> id
+  end.
+
+Lemma has_timer_drop_other k id k' i l :
+  ~ (i = id /\ k' = k) -> has_timer k id l = true -> has_timer k id (drop_timer k' i l) = true.
+Proof.
+  intros Hn. induction l as [|[a b] r IH]; cbn; [auto|]. intros H.
+  destruct ((a =? i) && (b =? k')) eqn:E1.
+  - apply andb_true_iff in E1 as [Ea Eb]. apply Z.eqb_eq in Ea, Eb. subst a b.
+    apply orb_true_iff in H as [H|H]; [|exact H].
+    apply andb_true_iff in H as [Ha Hb]. apply Z.eqb_eq in Ha, Hb. subst. exfalso. apply Hn. split; reflexivity.
+  - cbn. apply orb_true_iff in H as [H|H]; [rewrite H; reflexivity|]. rewrite (IH H). apply orb_true_r.
+Qed.
+
+Definition tomb_inv (k id : Z) (st : rgstate) : Prop :=
+  route st id = None \/ (route st id = Some (Tomb k) /\ has_timer k id (rgTimers st) = true).
+
+Lemma tomb_inv_step k id st o : elsewhere id o -> tomb_inv k id st -> tomb_inv k id (rgstep st o).
+Proof.
+  unfold tomb_inv, route. destruct o as [k' i|k' i|k' i|k' i]; cbn [rgstep elsewhere]; intros He Hi.
+  - unfold rgdial. destruct (lookup i (rgMap st)) as [[j|j]|]; cbn [fst rgMap rgTimers]; try exact Hi;
+      rewrite lookup_set_other by exact He; exact Hi.
+  - cbn [rgMap rgTimers]. rewrite lookup_set_other by exact He.
+    destruct Hi as [Hi|[Hi Ht]]; [left; exact Hi | right; split; [exact Hi|]]. cbn. rewrite Ht. apply orb_true_r.
+  - cbn [rgMap rgTimers]. rewrite lookup_remove_other by exact He. exact Hi.
+  - destruct (has_timer k' i (rgTimers st)) eqn:Eh; [|exact Hi]. cbn [rgMap rgTimers].
+    destruct (Z.eq_dec i id) as [->|Hne].
+    + destruct Hi as [Hi|[Hi Ht]].
+      * rewrite Hi. left. exact Hi.
+      * rewrite Hi. cbn [handler_eqb]. destruct (k =? k') eqn:Ek.
+        -- left. apply lookup_remove_same.
+        -- right. split; [exact Hi|]. apply has_timer_drop_other; [|exact Ht].
+           intros [_ ->]. rewrite Z.eqb_refl in Ek. discriminate.
+    + assert (Hl : lookup id (match lookup i (rgMap st) with
+                              | Some h => if handler_eqb h (Tomb k') then remove i (rgMap st) else rgMap st
+                              | None => rgMap st end) = lookup id (rgMap st)).
+      { destruct (lookup i (rgMap st)) as [h|]; [|reflexivity].
+        destruct (handler_eqb h (Tomb k')); [apply lookup_remove_other; exact Hne | reflexivity]. }
+      rewrite Hl. destruct Hi as [Hi|[Hi Ht]]; [left; exact Hi | right; split; [exact Hi|]].
+      apply has_timer_drop_other; [|exact Ht]. intros [-> _]. contradiction.
+Qed.
+
+Theorem tombstone_expires_reachable : forall ops st k id,
+  Forall (elsewhere id) ops ->
+  route (rgstep (rgrun (rgstep st (RgClose k id)) ops) (RgExpire k id)) id = None.
+Proof.
+  intros ops st k id Hf.
+  assert (H0 : tomb_inv k id (rgstep st (RgClose k id))).
+  { right. unfold route. cbn. rewrite Z.eqb_refl. cbn. rewrite !Z.eqb_refl. split; reflexivity. }
+  revert H0. generalize (rgstep st (RgClose k id)) as s.
+  induction Hf as [|o r Ho _ IH]; intros s Hs; cbn [rgrun fold_left].
+  - destruct Hs as [Hs|[Hs Ht]]; unfold route in *; cbn [rgstep].
+    + destruct (has_timer k id (rgTimers s)); [|exact Hs]. cbn [rgMap]. rewrite Hs. exact Hs.
+    + rewrite Ht. cbn [rgMap]. rewrite Hs. cbn [handler_eqb]. rewrite Z.eqb_refl. apply lookup_remove_same.
+  - apply IH. apply tomb_inv_step; assumption.
+Qed.
